@@ -77,7 +77,11 @@ impl Engine {
             // the stored counter is never decremented today; a counter of open requests would satisfy C05 as well
             && (r.unstake_request_count == b.reqs.len() as u64 + b.withdrawn_count() || r.unstake_request_count == b.reqs.len() as u64)
             // no property speaks about the action time of a batch that has been received
-            && (b.status == BStatus::Received || r.next_batch_action_time.seconds() == b.due.unwrap_or(0))
+            // (nor about the reported time of a submitted batch beyond "no earlier than one unbonding period": a
+            // deadline rounded up to the next whole second is as good)
+            && (b.status == BStatus::Received
+                || r.next_batch_action_time.seconds() == b.due.unwrap_or(0)
+                || (b.status == BStatus::Submitted && Some(r.next_batch_action_time.seconds()) == b.due.map(|d| d.saturating_add(1))))
             && r.status == b.status.as_str()
     }
 
@@ -180,17 +184,18 @@ impl Engine {
             self.chk(&["C03"], got == want, || format!("native recipient {acct} holds {got} LST vouchers, minted for it {want}"));
         }
         // ---- batches
-        let bs: BatchesResponse = match self.query_all_batches() {
-            Ok(b) => BatchesResponse { batches: b },
+        // (no struct literal of a contract response type: such types may gain fields)
+        let all_batches: Vec<BatchResponse> = match self.query_all_batches() {
+            Ok(b) => b,
             Err(e) => return self.chk(&["C16", "C06"], false, || format!("Batches query failed: {e}")),
         };
-        let ids: Vec<u64> = bs.batches.iter().map(|b| b.id).collect();
+        let ids: Vec<u64> = all_batches.iter().map(|b| b.id).collect();
         let want_ids: Vec<u64> = self.m.batches.keys().copied().collect();
         self.chk(&["C06"], ids == want_ids, || format!("batch ids {:?}, model {:?}", ids, want_ids));
-        let npending = bs.batches.iter().filter(|b| b.status == "pending").count();
-        let last_pending = bs.batches.last().map(|b| b.status == "pending").unwrap_or(false);
+        let npending = all_batches.iter().filter(|b| b.status == "pending").count();
+        let last_pending = all_batches.last().map(|b| b.status == "pending").unwrap_or(false);
         self.chk(&["C06"], npending == 1 && last_pending, || format!("{npending} pending batches; highest id pending: {last_pending}"));
-        for r in &bs.batches {
+        for r in &all_batches {
             if let Some(b) = self.m.batches.get(&r.id).cloned() {
                 let tags: &[&'static str] = if r.batch_total_liquid_stake.u128() != b.total
                     || (r.unstake_request_count != b.reqs.len() as u64 + b.withdrawn_count() && r.unstake_request_count != b.reqs.len() as u64)
@@ -309,7 +314,8 @@ impl Engine {
                         let ok = got.len() <= *limit as usize && want.starts_with(&got) && (got.len() == (*limit as usize).min(want.len()) || (got.len() >= PAGE_CAP_MIN && got.len() < want.len()));
                         self.chk(&["C17"], ok, || format!("{what}: got {:?}, full-scan reference {:?}", got, want));
                     }
-                    Err(e) => self.chk(&["C17", "C16"], false, || format!("{what}: {e}")),
+                    // a page size of 0 may be refused with a typed error
+                    Err(e) => self.chk(&["C17", "C16"], *limit == 0 && !e.contains("PANIC"), || format!("{what}: {e}")),
                 }
             }
             QuerySel::BatchesByIds(ids) => {
@@ -322,7 +328,14 @@ impl Engine {
                     Ok(r) => {
                         let got: Vec<u64> = r.batches.iter().map(|b| b.id).collect();
                         let content_ok = r.batches.iter().all(|b| self.m.batches.get(&b.id).map(|m| Engine::batch_matches(m, b)).unwrap_or(false));
-                        self.chk(&["C17"], got == want && content_ok, || format!("{what}: got {:?}, reference {:?}", got, want));
+                        // "exactly the existing requested batches": repeats in the request may or may not be repeated in the answer
+                        let mut once: Vec<u64> = vec![];
+                        for i in &want {
+                            if !once.contains(i) {
+                                once.push(*i);
+                            }
+                        }
+                        self.chk(&["C17"], (got == want || got == once) && content_ok, || format!("{what}: got {:?}, reference {:?}", got, want));
                     }
                     Err(e) => self.chk(&["C17", "C16"], false, || format!("{what}: {e}")),
                 }
@@ -347,7 +360,7 @@ impl Engine {
                         let ok = got.len() <= *limit as usize && want.starts_with(&got) && (got.len() == (*limit as usize).min(want.len()) || (got.len() >= PAGE_CAP_MIN && got.len() < want.len()));
                         self.chk(&["C17"], ok, || format!("{what}: got {:?}, reference {:?}", got, want));
                     }
-                    Err(e) => self.chk(&["C17", "C16"], false, || format!("{what}: {e}")),
+                    Err(e) => self.chk(&["C17", "C16"], *limit == 0 && !e.contains("PANIC"), || format!("{what}: {e}")),
                 }
             }
             QuerySel::ReplyQueue { start, limit } => {
